@@ -19,6 +19,8 @@ var VerifHooks struct {
 	// NewLocker, when set, supplies the lockers used by ring slots and pools,
 	// so that a goroutine blocked on them is visible to the harness.
 	NewLocker func() sync.Locker
+	// NewPoolLocker, when set, supplies the locker of connection pools (falls back to NewLocker).
+	NewPoolLocker func() sync.Locker
 }
 
 func verifYield(ctx context.Context, site string, obj any, cmd Completed) {
@@ -58,10 +60,11 @@ func verifRing(r *ring) {
 
 // verifPool rebuilds the condition of a new pool over a harness locker.
 func verifPool(p *pool) {
-	if VerifHooks.NewLocker == nil {
-		return
+	if f := VerifHooks.NewPoolLocker; f != nil {
+		p.cond = sync.NewCond(f())
+	} else if VerifHooks.NewLocker != nil {
+		p.cond = sync.NewCond(verifLocker())
 	}
-	p.cond = sync.NewCond(verifLocker())
 }
 
 func verifFirst(multi []Completed) (c Completed) {
